@@ -363,7 +363,10 @@ class INSMonitors:
         kept = int(np.sum(L >= thr))
         n = int(np.argmax(L >= thr))
         size = len(L)
-        if kept < min(size, ns.min_samples) and size - n < min(size, ns.min_samples):
+        # with constant draws and a cap smaller than min_samples + nlive the two clamps contradict each other; nessai applies the cap last (the floor of the
+        # *training set* is a separate clause, checked in check_training_set)
+        infeasible = bool(ns.draw_constant and ns.max_samples and ns.max_samples < ns.min_samples + ns.nlive)
+        if not infeasible and kept < min(size, ns.min_samples) and size - n < min(size, ns.min_samples):
             self.problem("C17", "insitu:fewer-than-min_samples-kept", dict(kept=size - n, size=size, min_samples=ns.min_samples))
         if ns.draw_constant and ns.max_samples and (size - n) + ns.nlive > ns.max_samples and ns.max_samples >= ns.min_samples + ns.nlive:
             self.problem("C17", "insitu:next-level-exceeds-max_samples", dict(kept=size - n, nlive=ns.nlive, max_samples=ns.max_samples))
